@@ -46,15 +46,15 @@ PROPS = {
     "C08": dict(
         pkg="c08", units=[rapid("TestProp", 15000, 200000)], assumptions=COMMON_ASSUME,
         technique="property-based testing (rapid): injected inapplicable operations, cause classes from an option-aware reference evaluator checked against errors.Is/As; metamorphic suffix-irrelevance",
-        level_text="Generated-input search: each case holds an operation built to be inapplicable at a random position; the option-aware model names the first failing operation and its cause class, and the library must return (nil, err) with errors.Is(ErrTestFailed) / *AccumulatedCopySizeError exactly for the matching causes, ErrMissing for absent members and unreachable parents, and the same error when the suffix is cut off. Exploration only.",
+        level_text="Generated-input search: each case holds an operation built to be inapplicable at a random position; the option-aware model names the first failing operation and its cause class, and the library must return (nil, err) with errors.Is(ErrTestFailed) / *AccumulatedCopySizeError exactly for the matching causes, ErrMissing for absent members and unreachable parents, and the same error when the suffix is cut off. Inputs come mostly in the encoder's own spelling and partly in other spellings; for those, copy sizes are measured in the outputs of the patch prefixes instead of modelled. Exploration only.",
         level_note="Trusted: harness/ref evaluator incl. its model of AllowMissingPathOnRemove, EnsurePathExistsOnAdd (clear domain only) and copy sizes; when an operation has two independent reasons to fail either classification is accepted.",
     ),
     "C12": dict(
         pkg="c12", units=[rapid("TestProp", 10000, 150000), rapid("TestPropV5Def", 5000, 60000), rapid("TestPropLegacy", 5000, 60000),
                           rapid("TestPropSpelled", 8000, 100000), rapid("TestPropSpelledLegacy", 5000, 60000)], assumptions=COMMON_ASSUME,
         technique="property-based testing (rapid): copy-heavy generated sequences, limit drawn around a reference running total of canonical sizes, and - for inputs in any spelling - around totals measured in the outputs of the patch prefixes (metamorphic); v5 option, v5 package default, staged legacy package",
-        level_text="Generated-input search: the reference keeps the running total of the canonical (output-spelling) sizes of copied values; limits are drawn at, just below and just above the totals; the library must fail with *AccumulatedCopySizeError exactly when the total exceeds the limit, return no document then, and never fail at limit 0. Run through ApplyOptions, the v5 package variable and the legacy package variable. Exploration only.",
-        level_note="Trusted: harness/ref size model (len of canonical text for the EscapeHTML setting; a copied null counts 0..4 bytes and limits inside that interval are excluded). Inputs are spelled as the encoder spells them, as the property's quantifier states.",
+        level_text="Generated-input search: the reference keeps the running total of the canonical (output-spelling) sizes of copied values; limits are drawn at, just below and just above the totals; the library must fail with *AccumulatedCopySizeError exactly when the total exceeds the limit, return no document then, and never fail at limit 0. Run through ApplyOptions, the v5 package variable and the legacy package variable. For inputs in any spelling (whitespace, other escapes) the sizes are not modelled but measured: each copy's size is the length of the copied value's text in the output of the patch prefix ending at that copy (limit disabled), and the limit is placed around those totals (v5 and legacy). One ApplyOptions value reused after a failing call must behave like fresh options. Exploration only.",
+        level_note="Trusted: harness/ref size model (len of canonical text for the EscapeHTML setting; a copied null counts 0..4 bytes and limits inside that interval are excluded). The measured-size units trust the reference evaluator for where a copied value lands and the library's own prefix outputs for how it is spelled there.",
     ),
     "C13": dict(
         pkg="c13", units=[rapid("TestProp", 15000, 200000)], assumptions=COMMON_ASSUME,
@@ -71,7 +71,7 @@ PROPS = {
     "C15": dict(
         pkg="c15", units=[rapid("TestProp", 6000, 80000), rapid("TestPropWF", 6000, 80000)], assumptions=COMMON_ASSUME,
         technique="property-based testing (rapid): strict RFC 8259 recogniser + UTF-8 + value round trip on every output; metamorphic relations EscapeHTML on/off, ApplyIndent vs re-indented Apply (encoding/json.Indent differential), inserted passing tests",
-        level_text="Generated-input search over documents whose names and strings hold the HTML-sensitive characters: every successful output of the five functions must be one RFC 8259 text in valid UTF-8 denoting the reference value; the on/off outputs must differ in spelling only, obey the two escaping clauses, ApplyIndent must equal an independent re-indentation byte for byte, and inserted passing tests must not change a byte. Exploration only.",
+        level_text="Generated-input search over documents whose names and strings hold the HTML-sensitive characters: every successful output of the five functions must be one RFC 8259 text in valid UTF-8 denoting the reference value; the on/off outputs must differ in spelling only, obey the two escaping clauses, ApplyIndent / ApplyIndentWithOptions must equal an independent re-indentation of Apply / ApplyWithOptions byte for byte under both settings, and inserted passing tests must not change a byte. Exploration only.",
         level_note="Trusted: harness/ref recogniser and canonical writer, encoding/json.Indent of the default toolchain (cross-checked by an independent re-indenter). The byte-identity clauses are asserted only for inputs in the encoder's own spelling, as the quantifier states.",
     ),
     "C02": dict(
@@ -155,8 +155,8 @@ PROPS = {
         exhaustive_units=[],
         assumptions=COMMON_ASSUME + ["a panic is observed by recover() around the library call only; a hang is nominated by a 30 s per-case wall-clock watchdog and only a confirmation under a CPU-time limit would be reported",
                                      "the library is quadratic in nesting depth (lazy re-parsing per level, also on the pinned tree): ~10 s per call at depth 10 000 is slow, not a hang"],
-        technique="property-based testing (rapid) with hostile byte-level and structure-level generators over every entry point, option combination and the legacy package; enumerated deep-nesting cases at the codec's limit; native go fuzzing in the thorough tier",
-        level_text="Generated-input search: every exported entry point of v5 and of the staged legacy package is called (inside recover) with hostile byte strings and with hostile documents x patches from a loose grammar under all option combinations, root replacements first, and nesting at 9 999/10 000/10 001 levels; the thorough tier adds coverage-guided native fuzzing of the same check. A violation is a recovered panic, a dead process, or a confirmed hang. Exploration only.",
+        technique="property-based testing (rapid) with hostile byte-level and structure-level generators over every entry point, option combination and the legacy package; enumerated deep-nesting cases at the codec's limit and an enumerated table of operation shapes; hang confirmation under a CPU-time limit; native go fuzzing in the thorough tier",
+        level_text="Generated-input search: every exported entry point of v5 and of the staged legacy package is called (inside recover) with hostile byte strings and with hostile documents x patches from a loose grammar under all option combinations, root replacements first, nesting at 9 999/10 000/10 001 levels, runs of malformed UTF-8 and lone-surrogate escapes spliced into string literals, whitespace padding, and a completely enumerated table of single operations (op x path x from x value member shapes incl. absent and null, alone and after a root replacement, x 12 small documents); the thorough tier adds coverage-guided native fuzzing of the same check. A violation is a recovered panic, a dead process, or a confirmed hang. Exploration only.",
         level_note="Trusted: recover() observes every panic of the calling goroutine (the library starts no goroutines). Outside the stated domain and not generated: nil options, hand-assembled Patch values, array indices above 10^4 under EnsurePathExistsOnAdd.",
     ),
     "C16": dict(
